@@ -5,7 +5,7 @@
     pivoting rule); [mx n n M] = the n x n MathComp matrix of the entries of M; [\det] = MathComp's
     determinant (Leibniz formula). *)
 From mathcomp Require Import all_ssreflect all_fingroup all_algebra.
-From LP Require Import Num C04_Model C05_Model C04_Proofs_Struct C04_Proofs_Laws C05_Proofs C05_Proofs_Complete C05_Proofs_Seq C05_Proofs_Seq2 C05_Proofs_Orth C05_Proofs_Round.
+From LP Require Import Num C04_Model C05_Model C04_Proofs_Struct C04_Proofs_Laws C05_Proofs C05_Proofs_Complete C05_Proofs_Seq C05_Proofs_Seq2 C05_Proofs_Orth C05_Proofs_Round C05_Proofs_Pivot.
 Import Order.TTheory GRing.Theory Num.Theory.
 Local Open Scope ring_scope.
 
@@ -241,6 +241,24 @@ Theorem C05_exchange_matrix_orthogonal :
   orthogonal Ops (mk_mat 2 2 (fun i j => if i == j then 0 else 1 : R)) = Ok true.
 Proof. exact (@exchange_matrix_orthogonal R sqrtF leF). Qed.
 Print Assumptions C05_exchange_matrix_orthogonal.
+(** "whatever the position of its zero or small entries": the pivot search of Inverse() by itself.  For every work array and
+    every column i < n it selects a row of i..n-1 whose entry in column i has maximal absolute value among these rows - at every
+    magnitude of the entries (the search compares |a| with |b|; nothing is multiplied) *)
+Theorem C05_pivot_row_maximal n (A : seq (seq R)) i : (i < n)%N ->
+  (i <= pivot_row Ops n A i < n)%N /\ forall j, (i <= j < n)%N -> `|tent Ops A j i| <= `|tent Ops A (pivot_row Ops n A i) i|.
+Proof. exact (fun Hi => conj (@pivot_row_range R sqrtF leF n A i Hi) (@pivot_row_maximal R sqrtF leF n A i)). Qed.
+Print Assumptions C05_pivot_row_maximal.
+(** the selected row does not depend on the unit of the column: column i multiplied by any d != 0 (d = 2^k: the same doubles in
+    another unit) gives the same row exchange *)
+Theorem C05_pivot_row_unit_free n (A A' : seq (seq R)) i d : d != 0 -> (forall j, tent Ops A' j i = tent Ops A j i * d) ->
+  pivot_row Ops n A' i = pivot_row Ops n A i.
+Proof. exact (@pivot_row_unit R sqrtF leF n A A' i d). Qed.
+Print Assumptions C05_pivot_row_unit_free.
+(** non-vacuity: a first column (r*d, 1*d) with 0 < r < 1 selects row 1 in every unit d != 0, however small r and however large or small d *)
+Theorem C05_pivot_row_example (r d : R) : 0 < r < 1 -> d != 0 ->
+  pivot_row Ops 2 [:: [:: r * d; 0; 1; 0]; [:: 1 * d; 0; 0; 1]] 0 = 1%N.
+Proof. exact (@pivot_row_example R sqrtF leF r d). Qed.
+Print Assumptions C05_pivot_row_example.
 End RealField.
 
 Section RoundedArithmetic.
